@@ -98,6 +98,7 @@ def cases_stream(tier, seed):
 
 # ------------------------------------------------------------------------------------------------ collection
 NAMES = ["S", "S_1", "T"]
+PRE_KEYS = ["S", "S_1", "S_2", "T"]
 COPS = ["add", "add_key", "add_many", "remove", "replace", "set_sort_key", "concat"]
 
 
@@ -146,6 +147,19 @@ def body_collection(ctx, case):
                         f"{tag}: get_index finds the member")
             break
 
+    if case.get("pre"):
+        # induction step from an ARBITRARY valid state instead of a history: any subset of these keys may already be held (the state a
+        # sequence of adds, renamed adds and removes of any length can leave behind -- e.g. S and S_2 without S_1)
+        for key in PRE_KEYS:
+            if ctx.choice(f"has_{key}", 2):
+                it = _Item(key.split("_")[0], ctx.real(f"k{uid[0]}", 0, 100), uid[0])
+                uid[0] += 1
+                col._streams[key] = it
+                model.append(it)
+        col._needs_sort = True
+        if len(model) >= 2:
+            ctx.tag("pre-populated state")
+        check("arbitrary valid pre-state")
     for k in range(K):
         op = COPS[ctx.choice(f"op{k}", len(COPS))]
         ctx.tag(f"op:{op}")
@@ -209,7 +223,7 @@ def body_collection(ctx, case):
 
 
 def cases_collection(tier, seed):
-    return [{"K": 1}, {"K": 2}] if tier == "quick" else [{"K": 2}, {"K": 3}]
+    return [{"K": 1}, {"K": 2}, {"K": 1, "pre": True}] if tier == "quick" else [{"K": 2}, {"K": 3}, {"K": 1, "pre": True}, {"K": 2, "pre": True}]
 
 
 FAMILIES = [
@@ -230,8 +244,9 @@ FAMILIES = [
         functions=["StreamCollection.add", "add_many", "replace", "remove", "set_sort_key", "get_index", "_ensure_sorted", "__iter__", "__add__", "__len__", "__getitem__", "__contains__"],
         files=["OpenPinch/classes/stream_collection.py"],
         bounds="every sequence of 1-2 (thorough: 3) operations chosen by the solver from {add, add with key, add_many(2), remove, replace(0-2), set_sort_key(3 forms), +}, each followed by len / full iteration / get_index; "
-               "member names from the clash-prone pool {S, S_1, T} (finite-domain symbolic), sort attributes z3 reals in [0,100]",
+               "member names from the clash-prone pool {S, S_1, T} (finite-domain symbolic), sort attributes z3 reals in [0,100]; induction-step cases start from an ARBITRARY valid "
+               "state (any subset of the keys S, S_1, S_2, T already held -- what add / renamed add / remove histories of any length can leave) and apply 1 (thorough 1-2) operations",
         assumptions=["names range over a 3-element pool (not unbounded strings)"],
-        shim_modules=["OpenPinch.classes.stream_collection"], reach=["op:add", "op:replace", "op:concat", "op:set_sort_key", "replace with an empty mapping"], split_paths=200, validate_every=10,
+        shim_modules=["OpenPinch.classes.stream_collection"], reach=["op:add", "op:replace", "op:concat", "op:set_sort_key", "replace with an empty mapping", "pre-populated state"], split_paths=200, validate_every=10,
     ),
 ]
